@@ -7,7 +7,7 @@ namespace TrieHeap
 
 namespace Heap
 
-theorem get_of_size_le {hp : Heap} {a : Addr} (h : hp.size ≤ a) : hp.get a = default := by
+theorem get_of_size_le {hp : Heap} {a : Nat} (h : hp.size ≤ a) : hp.get a = default := by
   unfold get size at *
   rw [Array.getElem?_eq_none (by omega)]; rfl
 
@@ -16,23 +16,23 @@ theorem get_of_size_le {hp : Heap} {a : Addr} (h : hp.size ≤ a) : hp.get a = d
 
 @[simp] theorem alloc_snd (hp : Heap) (n : HNode) : (hp.alloc n).2 = hp.size := rfl
 
-theorem get_alloc (hp : Heap) (n : HNode) (a : Addr) :
+theorem get_alloc (hp : Heap) (n : HNode) (a : Nat) :
     (hp.alloc n).1.get a = if a = hp.size then n else hp.get a := by
   unfold alloc get size
   simp only [Array.getElem?_push]
   split <;> simp
 
-theorem get_alloc_lt {hp : Heap} {n : HNode} {a : Addr} (h : a < hp.size) :
+theorem get_alloc_lt {hp : Heap} {n : HNode} {a : Nat} (h : a < hp.size) :
     (hp.alloc n).1.get a = hp.get a := by
   rw [get_alloc, if_neg (Nat.ne_of_lt h)]
 
 @[simp] theorem get_alloc_self (hp : Heap) (n : HNode) : (hp.alloc n).1.get hp.size = n := by
   rw [get_alloc, if_pos rfl]
 
-@[simp] theorem size_set (hp : Heap) (a : Addr) (n : HNode) : (hp.set a n).size = hp.size := by
+@[simp] theorem size_set (hp : Heap) (a : Nat) (n : HNode) : (hp.set a n).size = hp.size := by
   simp [set, size]
 
-theorem get_set (hp : Heap) (a : Addr) (n : HNode) (b : Addr) :
+theorem get_set (hp : Heap) (a : Nat) (n : HNode) (b : Nat) :
     (hp.set a n).get b = if b = a ∧ a < hp.size then n else hp.get b := by
   unfold set get size
   simp only [Array.getElem?_setIfInBounds]
@@ -45,36 +45,37 @@ theorem get_set (hp : Heap) (a : Addr) (n : HNode) (b : Addr) :
   · have : ¬ (b = a) := fun e => h e.symm
     simp [h, this]
 
-theorem get_set_ne {hp : Heap} {a b : Addr} (n : HNode) (h : b ≠ a) : (hp.set a n).get b = hp.get b := by
+theorem get_set_ne {hp : Heap} {a b : Nat} (n : HNode) (h : b ≠ a) : (hp.set a n).get b = hp.get b := by
   rw [get_set, if_neg (fun c => h c.1)]
 
-theorem get_set_self {hp : Heap} {a : Addr} (n : HNode) (h : a < hp.size) : (hp.set a n).get a = n := by
+theorem get_set_self {hp : Heap} {a : Nat} (n : HNode) (h : a < hp.size) : (hp.set a n).get a = n := by
   rw [get_set, if_pos ⟨rfl, h⟩]
 
-theorem set_oob {hp : Heap} {a : Addr} (n : HNode) (h : hp.size ≤ a) : hp.set a n = hp := by
-  unfold set size at *
+theorem set_oob {hp : Heap} {a : Nat} (n : HNode) (h : hp.size ≤ a) : hp.set a n = hp := by
   cases hp with
   | mk cells =>
-    simp only [Heap.mk.injEq]
+    have h3 : cells.size ≤ a := h
+    show Heap.mk (cells.setIfInBounds a n) = Heap.mk cells
+    congr 1
     apply Array.ext
     · simp
     · intro i h1 h2
-      have h3 : cells.size ≤ a := h
-      have : a ≠ i := by omega
-      simp [Array.getElem_setIfInBounds, this]
+      have : ¬ (a = i) := fun e => by subst e; exact absurd h2 (Nat.not_lt.mpr h3)
+      rw [Array.getElem_setIfInBounds (hj := h2)]
+      simp [this]
 
-@[simp] theorem size_modify (hp : Heap) (a : Addr) (f : HNode → HNode) : (hp.modify a f).size = hp.size := by
+@[simp] theorem size_modify (hp : Heap) (a : Nat) (f : HNode → HNode) : (hp.modify a f).size = hp.size := by
   simp [modify]
 
-theorem get_modify (hp : Heap) (a : Addr) (f : HNode → HNode) (b : Addr) :
+theorem get_modify (hp : Heap) (a : Nat) (f : HNode → HNode) (b : Nat) :
     (hp.modify a f).get b = if b = a ∧ a < hp.size then f (hp.get a) else hp.get b := by
   simp [modify, get_set]
 
-theorem get_modify_ne {hp : Heap} {a b : Addr} (f : HNode → HNode) (h : b ≠ a) :
+theorem get_modify_ne {hp : Heap} {a b : Nat} (f : HNode → HNode) (h : b ≠ a) :
     (hp.modify a f).get b = hp.get b := by
   rw [get_modify, if_neg (fun c => h c.1)]
 
-theorem modify_oob {hp : Heap} {a : Addr} (f : HNode → HNode) (h : hp.size ≤ a) : hp.modify a f = hp := by
+theorem modify_oob {hp : Heap} {a : Nat} (f : HNode → HNode) (h : hp.size ≤ a) : hp.modify a f = hp := by
   simp [modify, set_oob _ h]
 
 end Heap
@@ -100,26 +101,26 @@ theorem strip_mbh {n m : HNode} (h : n.strip = m.strip) : n.mbh = m.mbh := by
   have := congrArg HNode.mbh h; simpa [HNode.strip] using this
 
 /-- `b` is reachable from `a` through child pointers (reflexive) -/
-inductive Reach (hp : Heap) : Addr → Addr → Prop where
-  | refl (a : Addr) : Reach hp a a
-  | step {a c b : Addr} (i : Nib) : (hp.get a).kids i = some c → Reach hp c b → Reach hp a b
+inductive Reach (hp : Heap) : Nat → Nat → Prop where
+  | refl (a : Nat) : Reach hp a a
+  | step {a c b : Nat} (i : Nib) : (hp.get a).kids i = some c → Reach hp c b → Reach hp a b
 
-theorem Reach.trans {hp : Heap} {a b c : Addr} (h1 : Reach hp a b) (h2 : Reach hp b c) : Reach hp a c := by
+theorem Reach.trans {hp : Heap} {a b c : Nat} (h1 : Reach hp a b) (h2 : Reach hp b c) : Reach hp a c := by
   induction h1 with
   | refl => exact h2
   | step i hk _ ih => exact Reach.step i hk (ih h2)
 
-theorem Reach.tail {hp : Heap} {a b c : Addr} (i : Nib) (h1 : Reach hp a b)
+theorem Reach.tail {hp : Heap} {a b c : Nat} (i : Nib) (h1 : Reach hp a b)
     (hk : (hp.get b).kids i = some c) : Reach hp a c :=
   h1.trans (Reach.step i hk (Reach.refl c))
 
 /-- reachability from an optional root -/
-def ReachO (hp : Heap) : Option Addr → Addr → Prop
+def ReachO (hp : Heap) : Option Nat → Nat → Prop
   | none, _ => False
   | some r, a => Reach hp r a
 
 /-- reachability only depends on the child pointers of the cells passed through -/
-theorem Reach.mono {hp hp' : Heap} {a b : Addr} (h : Reach hp a b)
+theorem Reach.mono {hp hp' : Heap} {a b : Nat} (h : Reach hp a b)
     (hk : ∀ x, Reach hp a x → (hp'.get x).kids = (hp.get x).kids) : Reach hp' a b := by
   induction h with
   | refl => exact Reach.refl _
